@@ -236,3 +236,430 @@ Example model_error_branches :
   make_matrix_probe NumQ 0 (3 # 2)%Q 1 7%Q OriNone = None /\
   make_matrix_probe NumQ 2 (3 # 2)%Q 1 7%Q (OriEach [(0, 0, 1)%Q]) = None.
 Proof. vm_compute. repeat split; reflexivity. Qed.
+
+(* ======================================================================================== *)
+(* Second part (prover round): the glue around the motions.  Model/ProbeOps.v; proofs in
+   Proofs/ProbeOpsGenProofs.v (every numeric instance, axiom-free) and
+   Proofs/ProbeOpsProofs.v (over the reals).
+
+   Additional vocabulary (Proofs files):
+     bind o f            option sequencing: None (a raise) propagates
+     frame_ok c          i_hat, j_hat unit and orthogonal (ProbeProofs.v); holds in every
+                         reachable state
+     good n p            frame_ok (p_pcs p), n elements, normals absent or unit, one each
+     affine M t x        M x + t
+     moved M t p p'      p' is p with elements and PCS origin mapped by x -> M x + t, normals
+                         and PCS axes by M
+     wf_len n px         every per-element slot of the Probe object has n entries (or is
+                         None) and numelements = n
+     np_positions idx n  the positions (in order, with repetitions) that the numpy index
+                         idx selects on an axis of n entries; None = the index raises
+     arg_ok n a          a per-element constructor argument is None, one value, or n values *)
+From Coq Require Import String.
+From Coq Require Import List.
+From Arim Require Import Model.ProbeOps Proofs.ProbeOpsGenProofs Proofs.ProbeOpsProofs.
+Import ListNotations.
+
+(* ---- for EVERY numeric instance (in particular binary64): no real numbers involved ------- *)
+
+(* Python's slice.indices + range: every position a slice selects is a valid position, for
+   every start / stop / step (None, negative, beyond the ends); step 0 is the only raise. *)
+Theorem python_slice_in_range : forall (n : Z) (s e st : option Z) (ks : list Z), (0 <= n)%Z ->
+  slice_indices n s e st = Some ks -> Forall (fun k => (0 <= k < n)%Z) ks.
+Proof. exact slice_indices_in_range. Qed.
+
+Theorem python_slice_full_and_step0 : forall (n : nat) (s e : option Z),
+  slice_indices (Z.of_nat n) None None None = Some (map Z.of_nat (seq 0 n)) /\
+  slice_indices (Z.of_nat n) s e (Some 0%Z) = None.
+Proof. intros n s e; exact (conj (slice_all n) (slice_step0 (Z.of_nat n) s e)). Qed.
+
+(* numpy indexing of axis 0 commutes with any per-element map (this is why a subprobe of a
+   moved probe is the moved subprobe), and two arrays of the same length are indexed alike:
+   both raise or both give results of one length. *)
+Theorem indexing_commutes_with_maps : forall (A B : Type) (f : A -> B) (idx : np_idx) (l : list A),
+  np_take idx (map f l) = option_map (map f) (np_take idx l).
+Proof. exact @np_take_map. Qed.
+
+Theorem indexing_alike_on_equal_lengths : forall (A B : Type) (idx : np_idx) (l1 : list A) (l2 : list B),
+  List.length l1 = List.length l2 ->
+  match np_take idx l1, np_take idx l2 with
+  | Some r1, Some r2 => List.length r1 = List.length r2
+  | None, None => True
+  | _, _ => False
+  end.
+Proof. exact @np_take_same_length. Qed.
+
+(* a list of integers selects, in the order given and with repetitions, entry k (k >= 0) or
+   n + k (k < 0); it raises iff one entry is outside [-n, n). *)
+Theorem integer_list_index : forall (A : Type) (l : list A) (ks : list Z) (d : A),
+  (Forall (fun k => (- Z.of_nat (List.length l) <= k < Z.of_nat (List.length l))%Z) ks ->
+   np_take (IdxList ks) l = Some (map (fun k => List.nth (norm_index (List.length l) k) l d) ks)) /\
+  (Exists (fun k => ~ (- Z.of_nat (List.length l) <= k < Z.of_nat (List.length l))%Z) ks ->
+   np_take (IdxList ks) l = None).
+Proof. intros A l ks d; exact (conj (np_take_list_ok l ks d) (np_take_list_raises l ks)). Qed.
+
+(* every selected position is in range *)
+Theorem index_positions_in_range : forall (idx : np_idx) (n : nat) (ps : list nat),
+  np_positions idx n = Some ps -> Forall (fun i => (i < n)%nat) ps.
+Proof. exact np_positions_in_range. Qed.
+
+(* Probe.subprobe in closed form: it raises exactly when the index raises on the locations;
+   otherwise locations, orientations, dimensions, shapes, dead_elements are indexed alike,
+   the PCS is kept as it is, frequency / bandwidth are kept, metadata kept or emptied,
+   numelements is the number of selected elements. *)
+Theorem subprobe_closed_form : forall (T : Type) (N : Num T) (n : nat) (idx : np_idx) (sm : bool)
+    (px : probe_x (T:=T)), wf_len n px ->
+  subprobe N idx sm px =
+  match np_take idx (p_locs (x_core px)) with
+  | None => None
+  | Some locs =>
+      Some (mkPX (mkProbe locs (option_map (take_or_nil idx) (p_oris (x_core px))) (p_pcs (x_core px)))
+                 (option_map (take_or_nil idx) (x_dims px)) (option_map (take_or_nil idx) (x_shapes px))
+                 (take_or_nil idx (x_dead px)) (x_freq px) (x_bw px)
+                 (if sm then x_meta px else []) (Z.of_nat (List.length locs)))
+  end.
+Proof. exact @subprobe_spec_gen. Qed.
+
+(* subprobe commutes with rotate / translate / flip / translate_to_point_O / reset_position:
+   the same object, the same raise, whichever is done first — bit for bit in floating point
+   too, since no arithmetic identity is used. *)
+Theorem subprobe_commutes_with_motions : forall (T : Type) (N : Num T) (n : nat) (idx : np_idx) (sm : bool)
+    (o : op (T:=T)) (px : probe_x (T:=T)), wf_len n px -> not_set_ref o = true ->
+  bind (apply_op_x N o px) (subprobe N idx sm) = bind (subprobe N idx sm px) (apply_op_x N o).
+Proof. exact @subprobe_commutes_gen. Qed.
+
+(* frame condition: a history of motions assigns locations / orientations / pcs (as
+   Model/Probe.v says) and leaves dimensions, shapes, dead_elements, frequency, bandwidth,
+   metadata, numelements alone. *)
+Theorem motions_touch_only_motion_state : forall (T : Type) (N : Num T) (ops : list (op (T:=T)))
+    (px q : probe_x (T:=T)), run_ops_x N ops px = Some q ->
+  run_ops N ops (x_core px) = Some (x_core q) /\
+  x_dims q = x_dims px /\ x_shapes q = x_shapes px /\ x_dead q = x_dead px /\ x_freq q = x_freq px /\
+  x_bw q = x_bw px /\ x_meta q = x_meta px /\ x_numel q = x_numel px.
+Proof. exact @run_ops_x_frame. Qed.
+
+(* the metadata of make_matrix_probe: each of the five keys keeps the caller's value when
+   there is one that is not None, else gets probe_type in {single, linear, matrix}, numx,
+   numy, pitch_x, pitch_y (nan for a one-element axis: the caller passes MNan); no other key
+   is touched. *)
+Theorem matrix_probe_metadata : forall (T : Type) (m : dict T) (numx numy : Z) (a b : mval T),
+  let m' := matrix_metadata m numx numy a b in
+  dict_get m' "probe_type" = (if dict_unset m "probe_type" then Some (MStr (probe_type_of numx numy)) else dict_get m "probe_type") /\
+  dict_get m' "numx" = (if dict_unset m "numx" then Some (MInt numx) else dict_get m "numx") /\
+  dict_get m' "numy" = (if dict_unset m "numy" then Some (MInt numy) else dict_get m "numy") /\
+  dict_get m' "pitch_x" = (if dict_unset m "pitch_x" then Some a else dict_get m "pitch_x") /\
+  dict_get m' "pitch_y" = (if dict_unset m "pitch_y" then Some b else dict_get m "pitch_y") /\
+  forall k : string, k <> "probe_type"%string -> k <> "numx"%string -> k <> "numy"%string ->
+    k <> "pitch_x"%string -> k <> "pitch_y"%string -> dict_get m' k = dict_get m k.
+Proof. exact @matrix_metadata_spec. Qed.
+
+(* a second set_reference_element overrides the first (it reads the locations only) *)
+Theorem second_reference_overrides_first : forall (T : Type) (N : Num T) (r1 r2 : refelt) (p : probe (T:=T)),
+  p_set_ref N r1 p <> None -> bind (p_set_ref N r1 p) (p_set_ref N r2) = p_set_ref N r2 p.
+Proof. exact @set_ref_absorbs_gen. Qed.
+
+(* the probe_location block of io.native.probe_from_conf is a history of the modelled
+   operations, for every subset of its keys: [set_reference_element(ref);
+   translate_to_point_O] ++ [rotate(rotation_matrix_y(deg2rad(angle)))] ++
+   [translate((0, 0, standoff))] — so every theorem about histories applies to it. *)
+Theorem probe_location_is_history : forall (T : Type) (N : Num T) (ref : option refelt) (a h : option T)
+    (p : probe (T:=T)),
+  apply_probe_location N ref a h p = run_ops N (location_ops N ref a h) p.
+Proof. exact @apply_probe_location_history_gen. Qed.
+
+(* ---- over the reals ------------------------------------------------------------------------ *)
+
+(* refinement: in every reachable state convert_to_gcs and convert_from_gcs of the PCS are
+   inverse bijections, so the pair (locations_pcs, pcs) determines the locations and
+   (constructed normals, PCS axes) the normals. *)
+Theorem locations_determined : forall (n : nat) (p0 p : probeR), reachable n p0 p ->
+  p_locs p = map (cs_to_gcs NumR (p_pcs p)) (locations_pcs NumR p) /\
+  locations_pcs NumR p = map (cs_from_gcs NumR (p_pcs p)) (p_locs p) /\
+  (forall q : vec, cs_from_gcs NumR (p_pcs p) (cs_to_gcs NumR (p_pcs p) q) = q) /\
+  (forall x : vec, cs_to_gcs NumR (p_pcs p) (cs_from_gcs NumR (p_pcs p) x) = x) /\
+  p_oris p = option_map (map (cs_to_gcs NumR (mkCS (0, 0, 0)%R (cs_i (p_pcs p)) (cs_j (p_pcs p))))) (p_oris p0).
+Proof. exact locations_determined_R. Qed.
+
+(* every history is ONE rigid motion, in closed form (the spec the harness accumulates in
+   numpy): there are a proper rotation M, a vector t and a reference point r such that the
+   elements are M x0 + t, the normals M n0, the PCS axes the COLUMNS of M (k_hat included:
+   orientation is preserved), the PCS origin M r + t, and locations_pcs = x0 - r. *)
+Theorem history_is_one_rigid_motion : forall (n : nat) (p0 p : probeR), reachable n p0 p ->
+  exists (M : mat) (t r : vec), proper_rotation NumR M /\
+    p_locs p = map (affine M t) (p_locs p0) /\
+    p_oris p = option_map (map (mvec NumR M)) (p_oris p0) /\
+    cs_i (p_pcs p) = mcol0 M /\ cs_j (p_pcs p) = mcol1 M /\ cs_k NumR (p_pcs p) = mcol2 M /\
+    cs_o (p_pcs p) = affine M t r /\
+    locations_pcs NumR p = map (fun x => vsub NumR x r) (p_locs p0).
+Proof. exact history_rigid_motion_R. Qed.
+
+(* composition laws (equalities of whole probe states, raise included) *)
+Theorem rotations_compose : forall (M1 M2 : mat) (ce : option vec) (p : probeR),
+  cols_orthonormal NumR M1 -> cols_orthonormal NumR M2 -> frame_ok (p_pcs p) ->
+  bind (p_rotate NumR M1 ce p) (p_rotate NumR M2 ce) = p_rotate NumR (mmul NumR M2 M1) ce p.
+Proof. exact rotate_rotate_R. Qed.
+
+Theorem translations_compose : forall (v1 v2 : vec) (p : probeR), frame_ok (p_pcs p) ->
+  bind (p_translate NumR v1 p) (p_translate NumR v2) = p_translate NumR (vadd NumR v1 v2) p.
+Proof. exact translate_translate_R. Qed.
+
+Theorem translate_then_rotate : forall (M : mat) (ce : option vec) (v : vec) (p : probeR),
+  cols_orthonormal NumR M -> frame_ok (p_pcs p) ->
+  bind (p_translate NumR v p) (p_rotate NumR M ce) = bind (p_rotate NumR M ce p) (p_translate NumR (mvec NumR M v)).
+Proof. exact translate_rotate_R. Qed.
+
+Theorem rotation_about_centre_decomposes : forall (M : mat) (c : vec) (p : probeR),
+  cols_orthonormal NumR M -> frame_ok (p_pcs p) ->
+  p_rotate NumR M (Some c) p =
+  bind (bind (p_translate NumR (vopp NumR c) p) (p_rotate NumR M None)) (p_translate NumR c).
+Proof. exact rotate_about_centre_R. Qed.
+
+Theorem rotation_undone_by_transpose : forall (M : mat) (ce : option vec) (p : probeR),
+  cols_orthonormal NumR M -> frame_ok (p_pcs p) ->
+  bind (p_rotate NumR M ce p) (p_rotate NumR (mtrans M) ce) = Some p.
+Proof. exact rotate_inverse_R. Qed.
+
+Theorem flip_twice_is_identity : forall p : probeR, frame_ok (p_pcs p) ->
+  bind (p_flip NumR p) (p_flip NumR) = Some p.
+Proof. exact flip_flip_R. Qed.
+
+Theorem reset_and_to_O_idempotent : forall p : probeR, frame_ok (p_pcs p) ->
+  bind (p_reset NumR p) (p_reset NumR) = p_reset NumR p /\
+  bind (p_to_O NumR p) (p_to_O NumR) = p_to_O NumR p /\
+  (p_pcs p = gcs NumR -> p_reset NumR p = Some p).
+Proof.
+  intros p H; exact (conj (reset_idempotent_R p H) (conj (to_O_idempotent_R p H) (reset_at_gcs_R p))).
+Qed.
+
+(* placing a probe (probe_from_conf): never raises from a reachable state, for every subset
+   of the keys, and the result is a reachable state (rigid, PCS attached, ...). *)
+Theorem probe_location_never_raises : forall (n : nat) (p0 p : probeR) (ref : option refelt) (a h : option R),
+  reachable n p0 p -> match ref with Some r => op_ok n (OpSetRef r) | None => True end ->
+  exists p', apply_probe_location NumR ref a h p = Some p' /\ reachable n p0 p'.
+Proof. exact probe_location_total_R. Qed.
+
+(* ... and the pose it produces with all three keys: the reference point q (element or mean)
+   ends at (0, 0, standoff), which is the PCS origin; the elements are
+   R_y(angle) (x - q) + (0, 0, standoff); axes and normals are turned by R_y(angle); the
+   probe-frame coordinates are shifted so that the reference point is at the origin. *)
+Theorem probe_location_pose : forall (n : nat) (p : probeR) (r : refelt) (a h : R),
+  good n p -> op_ok n (OpSetRef r) ->
+  let Ry := rotation_matrix_y NumR (deg2rad NumR a) in
+  exists q p', ref_point NumR r (p_locs p) = Some q /\
+    apply_probe_location NumR (Some r) (Some a) (Some h) p = Some p' /\
+    p_locs p' = map (fun x => vadd NumR (mvec NumR Ry (vsub NumR x q)) (0, 0, h)%R) (p_locs p) /\
+    p_oris p' = option_map (map (mvec NumR Ry)) (p_oris p) /\
+    cs_o (p_pcs p') = (0, 0, h)%R /\
+    cs_i (p_pcs p') = mvec NumR Ry (cs_i (p_pcs p)) /\ cs_j (p_pcs p') = mvec NumR Ry (cs_j (p_pcs p)) /\
+    locations_pcs NumR p' = map (fun x => vsub NumR x (cs_from_gcs NumR (p_pcs p) q)) (locations_pcs NumR p).
+Proof. exact probe_location_pose_R. Qed.
+
+(* measurement.move_probe_over_flat_surface after reset_position (as
+   find_probe_loc_from_frontwall does): the gate pcs.isclose(GCS) passes, nothing raises,
+   the elements sit at R_y(theta) (probe-frame location) + (0, 0, z_o), the PCS origin at
+   (0, 0, z_o) with axes (cos, 0, -sin), (0, 1, 0), (sin, 0, cos); locations_pcs unchanged. *)
+Theorem place_over_surface_after_reset : forall (n : nat) (p0 p : probeR) (th z : R), reachable n p0 p ->
+  let Ry := rotation_matrix_y NumR th in
+  exists p1 p', p_reset NumR p = Some p1 /\ place_over_surface NumR th z p1 = Some p' /\
+    reachable n p0 p' /\
+    p_locs p' = map (fun x => vadd NumR (mvec NumR Ry x) (0, 0, z)%R) (locations_pcs NumR p) /\
+    cs_o (p_pcs p') = (0, 0, z)%R /\ cs_i (p_pcs p') = (cos th, 0, - sin th)%R /\
+    cs_j (p_pcs p') = (0, 1, 0)%R /\ cs_k NumR (p_pcs p') = (sin th, 0, cos th)%R /\
+    locations_pcs NumR p' = locations_pcs NumR p.
+Proof. exact place_after_reset_R. Qed.
+
+(* convert_from_gcs_pairwise: points carried along with the probe keep their coordinates
+   relative to every origin; and the element-to-element relative coordinates in the probe
+   frame are those of the constructed probe after EVERY history (set_reference_element
+   included: the common shift cancels). *)
+Theorem pairwise_follows_probe : forall (M : mat) (t : vec) (p p' : probeR) (pts origins : list vec),
+  proper_rotation NumR M -> moved M t p p' ->
+  cs_from_gcs_pairwise NumR (p_pcs p') (map (affine M t) pts) origins =
+  cs_from_gcs_pairwise NumR (p_pcs p) pts origins.
+Proof. exact pairwise_moved_R. Qed.
+
+Theorem relative_coordinates_invariant : forall (n : nat) (p0 p : probeR), reachable n p0 p ->
+  cs_from_gcs_pairwise NumR (p_pcs p) (p_locs p) (locations_pcs NumR p) =
+  cs_from_gcs_pairwise NumR (gcs NumR) (p_locs p0) (p_locs p0).
+Proof. exact relative_coordinates_R. Qed.
+
+(* Probe.__init__ through make_matrix_probe, the whole object: the motion state is the one
+   of make_matrix_probe of Model/Probe.v (so `reachable` applies), every per-element slot has
+   numx*numy entries (one value is repeated, dead_elements defaults to all False), frequency
+   and bandwidth are stored, the metadata is `matrix_probe_metadata`; it raises for a size
+   < 1 or a per-element argument of the wrong length. *)
+Theorem matrix_probe_object : forall (numx numy : Z) (pitx pity : R) (f bw : option R) (dims oris : arg1 vec)
+    (shapes : arg1 Z) (dead : arg1 bool) (meta : option (dict R)),
+  (1 <= numx)%Z -> (1 <= numy)%Z ->
+  let n := (Z.to_nat numy * Z.to_nat numx)%nat in
+  arg_ok n dims -> arg_ok n oris -> arg_ok n shapes -> arg_ok n dead ->
+  exists px, make_matrix_probe_x NumR numx pitx numy pity f dims oris shapes dead bw None meta = Some px /\
+    make_matrix_probe NumR numx pitx numy pity (to_ori oris) = Some (x_core px) /\
+    wf_len n px /\ x_numel px = (numx * numy)%Z /\
+    x_dims px = arg_value n dims /\ x_shapes px = arg_value n shapes /\ x_dead px = dead_value n dead /\
+    x_freq px = f /\ x_bw px = bw /\
+    x_meta px = matrix_metadata (match meta with None => [] | Some m => m end) numx numy
+                  (if (numx =? 1)%Z then MNan else MNum pitx) (if (numy =? 1)%Z then MNan else MNum pity).
+Proof. exact make_matrix_probe_x_R. Qed.
+
+Theorem matrix_probe_object_raises : forall (numx numy : Z) (pitx pity : R) (f bw : option R)
+    (dims oris : arg1 vec) (shapes : arg1 Z) (dead : arg1 bool) (pcs : option (csys (T:=R)))
+    (meta : option (dict R)),
+  let n := (Z.to_nat numy * Z.to_nat numx)%nat in
+  (numx < 1)%Z \/ (numy < 1)%Z \/ ~ arg_ok n dims \/ ~ arg_ok n oris \/ ~ arg_ok n shapes \/ ~ arg_ok n dead ->
+  make_matrix_probe_x NumR numx pitx numy pity f dims oris shapes dead bw pcs meta = None.
+Proof. exact make_matrix_probe_x_raises. Qed.
+
+(* the whole object through make_matrix_probe and any admissible history: nothing raises,
+   the motion state is reachable, the other slots are as constructed. *)
+Theorem object_history : forall (numx numy : Z) (pitx pity : R) (f bw : option R) (dims oris : arg1 vec)
+    (shapes : arg1 Z) (dead : arg1 bool) (meta : option (dict R)) (ops : list opR),
+  (1 <= numx)%Z -> (1 <= numy)%Z ->
+  let n := (Z.to_nat numy * Z.to_nat numx)%nat in
+  arg_ok n dims -> ori_arg_ok n (to_ori oris) -> arg_ok n shapes -> arg_ok n dead -> Forall (op_ok n) ops ->
+  exists px q, make_matrix_probe_x NumR numx pitx numy pity f dims oris shapes dead bw None meta = Some px /\
+    run_ops_x NumR ops px = Some q /\ reachable n (x_core px) (x_core q) /\ wf_len n q /\
+    x_dims q = arg_value n dims /\ x_shapes q = arg_value n shapes /\ x_dead q = dead_value n dead /\
+    x_freq q = f /\ x_bw q = bw /\ x_meta q = x_meta px /\ x_numel q = (numx * numy)%Z.
+Proof. exact object_history_R. Qed.
+
+Theorem set_element_dimensions_spec : forall (n : nat) (sx sy sz : R) (px : probe_xR), wf_len n px ->
+  let q := set_element_dimensions NumR sx sy sz px in
+  x_dims q = Some (repeat (sx, sy, sz) n) /\ wf_len n q /\ x_core q = x_core px /\
+  x_shapes q = x_shapes px /\ x_dead q = x_dead px /\ x_freq q = x_freq px /\ x_bw q = x_bw px /\
+  x_meta q = x_meta px /\ x_numel q = x_numel px.
+Proof. exact set_element_dimensions_R. Qed.
+
+(* Probe.subprobe on a well-formed object: with ps the selected positions, the subprobe has
+   those elements in that order (locations, locations_pcs, normals, dimensions, shapes,
+   dead_elements alike), the SAME PCS — the probe-frame coordinates of the retained elements
+   do not change —, satisfies the invariant of reachable states for length ps elements; it
+   raises exactly when the index does. *)
+Theorem subprobe_spec : forall (n : nat) (idx : np_idx) (sm : bool) (px : probe_xR) (ps : list nat),
+  wf_len n px -> good n (x_core px) -> np_positions idx n = Some ps ->
+  let m := List.length ps in
+  exists sp, subprobe NumR idx sm px = Some sp /\
+    wf_len m sp /\ good m (x_core sp) /\ Forall (fun i => (i < n)%nat) ps /\
+    p_pcs (x_core sp) = p_pcs (x_core px) /\
+    p_locs (x_core sp) = map (fun i => List.nth i (p_locs (x_core px)) (vzero NumR)) ps /\
+    locations_pcs NumR (x_core sp) = map (fun i => List.nth i (locations_pcs NumR (x_core px)) (vzero NumR)) ps /\
+    p_oris (x_core sp) = option_map (fun l => map (fun i => List.nth i l (vzero NumR)) ps) (p_oris (x_core px)) /\
+    x_dims sp = option_map (fun l => map (fun i => List.nth i l (vzero NumR)) ps) (x_dims px) /\
+    x_shapes sp = option_map (fun l => map (fun i => List.nth i l 0%Z) ps) (x_shapes px) /\
+    x_dead sp = map (fun i => List.nth i (x_dead px) false) ps /\
+    x_freq sp = x_freq px /\ x_bw sp = x_bw px /\ x_meta sp = (if sm then x_meta px else []) /\
+    x_numel sp = Z.of_nat m.
+Proof. exact subprobe_R. Qed.
+
+Theorem subprobe_raises : forall (n : nat) (idx : np_idx) (sm : bool) (px : probe_xR),
+  wf_len n px -> np_positions idx n = None -> subprobe NumR idx sm px = None.
+Proof. exact subprobe_raises_R. Qed.
+
+(* a subprobe followed by ANY admissible history (for its own number of elements): nothing
+   raises; distances are those of the retained elements of the original probe;
+   locations_pcs are those of the retained elements up to the common vector of
+   set_reference_element (none without it); the other slots are those selected. *)
+Theorem subprobe_then_history : forall (n : nat) (idx : np_idx) (sm : bool) (px : probe_xR) (ps : list nat)
+    (ops : list opR),
+  wf_len n px -> good n (x_core px) -> np_positions idx n = Some ps ->
+  let m := List.length ps in
+  Forall (op_ok m) ops ->
+  exists sp q, subprobe NumR idx sm px = Some sp /\ run_ops_x NumR ops sp = Some q /\
+    wf_len m q /\ good m (x_core q) /\
+    (forall (a b : nat) (d : vec), (a < m)%nat -> (b < m)%nat ->
+       dist2 (List.nth a (p_locs (x_core q)) d) (List.nth b (p_locs (x_core q)) d) =
+       dist2 (List.nth (List.nth a ps 0%nat) (p_locs (x_core px)) d) (List.nth (List.nth b ps 0%nat) (p_locs (x_core px)) d)) /\
+    (exists d, locations_pcs NumR (x_core q) =
+               map (fun i => vsub NumR (List.nth i (locations_pcs NumR (x_core px)) (vzero NumR)) d) ps /\
+               (forallb (fun o => negb (is_set_ref o)) ops = true -> d = vzero NumR)) /\
+    orientations_pcs NumR (x_core q) = orientations_pcs NumR (x_core sp) /\
+    x_dead q = map (fun i => List.nth i (x_dead px) false) ps /\ x_dims q = x_dims sp /\ x_shapes q = x_shapes sp /\
+    x_meta q = (if sm then x_meta px else []) /\ x_numel q = Z.of_nat m.
+Proof. exact subprobe_history_R. Qed.
+
+(* ---- non-vacuity of the second part ---------------------------------------------------------- *)
+(* the hypotheses of the composition laws hold e.g. at the GCS with a 3-4-5 rotation *)
+Example composition_hypotheses_satisfiable :
+  let p : probeR := mkProbe [(1, 2, 3)%R] None (gcs NumR) in
+  frame_ok (p_pcs p) /\ cols_orthonormal NumR (rot_z_cs NumR (3 / 5) (4 / 5))%R /\
+  bind (p_flip NumR p) (p_flip NumR) = Some p.
+Proof.
+  cbn zeta. split; [exact gcs_frame_ok|]. split.
+  - assert (H : proper_rotation NumR (rot_z_cs NumR (3 / 5) (4 / 5))%R) by (apply rot_z_proper; field).
+    apply H.
+  - apply flip_flip_R. exact gcs_frame_ok.
+Qed.
+
+(* a whole object, moved, then cut down with a reversed slice and moved again: all the
+   hypotheses of object_history and subprobe_then_history are met *)
+Example object_and_subprobe_hypotheses_satisfiable :
+  let ops : list opR := [OpTranslate (1, 2, 3)%R; OpSetRef (RefIdx (-6)); OpReset] in
+  let ops' : list opR := [OpRotate (rotation_matrix_ypr NumR 1 2 3)%R (Some (1, 1, 1)%R); OpSetRef (RefIdx (-3)); OpFlip] in
+  exists px q ps, make_matrix_probe_x NumR 3 1%R 2 (-2)%R (Some 1000000%R) (ArgOne (1, 2, 3)%R) (ArgOne (0, 0, 1)%R)
+                    (ArgOne 1%Z) (ArgEach [false; true; false; false; false; true]) None None None = Some px /\
+    run_ops_x NumR ops px = Some q /\ wf_len 6 q /\ good 6 (x_core q) /\
+    np_positions (IdxSlice None None (Some (-2)%Z)) 6 = Some ps /\ ps = [5; 3; 1]%nat /\
+    Forall (op_ok (List.length ps)) ops' /\
+    exists sp q', subprobe NumR (IdxSlice None None (Some (-2)%Z)) true q = Some sp /\
+      run_ops_x NumR ops' sp = Some q' /\ x_dead q' = [true; false; true].
+Proof.
+  cbn zeta.
+  assert (Hu : ori_arg_ok 6 (to_ori (ArgOne (0, 0, 1)%R))).
+  { unfold ori_arg_ok, to_ori, unit_v. v3_unfold. ring. }
+  assert (Hops : Forall (op_ok 6) [OpTranslate (1, 2, 3)%R; OpSetRef (RefIdx (-6)); OpReset]).
+  { constructor; [exact I|]. constructor; [cbn [op_ok]; lia|]. constructor; [exact I|constructor]. }
+  destruct (object_history_R 3 2 1%R (-2)%R (Some 1000000%R) None (ArgOne (1, 2, 3)%R) (ArgOne (0, 0, 1)%R)
+              (ArgOne 1%Z) (ArgEach [false; true; false; false; false; true]) None _
+              ltac:(lia) ltac:(lia) I Hu I eq_refl Hops)
+    as (px & q & E & Er & Hre & Hwf & _ & _ & Hdead & _).
+  pose proof (reachable_facts _ _ _ Hre) as (_ & Hg & _).
+  exists px, q, [5; 3; 1]%nat. split; [exact E|]. split; [exact Er|]. split; [exact Hwf|]. split; [exact Hg|].
+  split; [reflexivity|]. split; [reflexivity|].
+  assert (Hops' : Forall (op_ok 3)
+    [OpRotate (rotation_matrix_ypr NumR 1 2 3)%R (Some (1, 1, 1)%R); OpSetRef (RefIdx (-3)); OpFlip]).
+  { constructor; [apply rotation_matrix_ypr_proper|]. constructor; [cbn [op_ok]; lia|]. constructor; [exact I|constructor]. }
+  split; [exact Hops'|].
+  destruct (subprobe_history_R 6 (IdxSlice None None (Some (-2)%Z)) true q [5; 3; 1]%nat _ Hwf Hg eq_refl Hops')
+    as (sp & q' & Es & Er' & _ & _ & _ & _ & _ & Hd' & _).
+  exists sp, q'. split; [exact Es|]. split; [exact Er'|]. rewrite Hd', Hdead. reflexivity.
+Qed.
+
+(* the glue computes (exact rationals, vm_compute); every value below was replayed on the
+   real library (see .work/prover_C16_TIE.md) *)
+Example glue_runs_on_rationals :
+  let px0 := make_matrix_probe_x NumQ 3 1%Q 2 (-2)%Q (Some 1000000%Q) (ArgOne (1, 2, 3)%Q) (ArgOne (0, 0, 1)%Q)
+               (ArgOne 1%Z) (ArgEach [false; true; false; false; false; true]) None None
+               (Some [("numx"%string, MNone); ("probe_type"%string, MStr "x")]) in
+  let sub idx sm := match px0 with Some p => subprobe NumQ idx sm p | None => None end in
+  option_map (@x_meta Q) px0 =
+    Some [("numx"%string, MInt 3); ("probe_type"%string, MStr "x"); ("numy"%string, MInt 2);
+          ("pitch_x"%string, MNum 1%Q); ("pitch_y"%string, MNum (-2)%Q)] /\
+  option_map (fun p => (p_locs (x_core p), x_dead p, x_meta p, x_numel p)) (sub (IdxList [0; -1; 2; 2]%Z) false) =
+    Some ([(-1, 1, 0); (1, -1, 0); (1, 1, 0); (1, 1, 0)]%Q, [false; true; false; false], [], 4%Z) /\
+  option_map (fun p => (p_locs (x_core p), x_dead p)) (sub (IdxSlice (Some 4%Z) (Some 0%Z) (Some (-2)%Z)) true) =
+    Some ([(0, -1, 0); (1, 1, 0)]%Q, [false; false]) /\
+  option_map (fun p => (p_locs (x_core p), x_dead p)) (sub (IdxMask [true; false; true; false; false; true]) false) =
+    Some ([(-1, 1, 0); (1, 1, 0); (1, -1, 0)]%Q, [false; false; true]) /\
+  (sub (IdxInt 1) false, sub (IdxList [6%Z]) false, sub (IdxMask [true; false]) false,
+   sub (IdxSlice None None (Some 0%Z)) false) = (None, None, None, None) /\
+  option_map (@x_meta Q) (make_matrix_probe_x NumQ 1 5%Q 4 7%Q (Some 2%Q) ArgNone ArgNone ArgNone ArgNone (Some 3%Q) None None) =
+    Some [("probe_type"%string, MStr "linear"); ("numx"%string, MInt 1); ("numy"%string, MInt 4);
+          ("pitch_x"%string, MNan); ("pitch_y"%string, MNum 7%Q)] /\
+  make_matrix_probe_x NumQ 3 1%Q 2 1%Q None ArgNone ArgNone ArgNone (ArgEach [true; false]) None None None = None /\
+  (slice_indices 6 None None (Some 2%Z), slice_indices 6 (Some (-100)%Z) (Some 100%Z) (Some 4%Z),
+   slice_indices 6 (Some 100%Z) (Some (-100)%Z) (Some (-3)%Z)) =
+    (Some [0; 2; 4]%Z, Some [0; 4]%Z, Some [5; 2]%Z) /\
+  cs_from_gcs_pairwise NumQ (mkCS (1, 1, 1) (0, 1, 0) (0, 0, 1))%Q [(1, 2, 3); (4, 5, 6)]%Q [(1, 0, 0); (0, 1, 0); (0, 0, 1)]%Q =
+    ([[0; 1; 1]; [3; 4; 4]], [[2; 1; 2]; [5; 4; 5]], [[0; 0; -1]; [3; 3; 2]])%Q /\
+  map (cs_to_gcs NumQ (mkCS (1, 1, 1) (0, 1, 0) (0, 0, 1))%Q) [(1, 2, 3); (4, 5, 6)]%Q = [(4, 2, 3); (7, 5, 6)]%Q /\
+  match make_matrix_probe NumQ 3 2%Q 1 7%Q (OriOne (0, 0, 1)%Q) with
+  | Some p => apply_probe_location NumQ (Some RefLast) (Some 0%Q) (Some (5 # 2)%Q) p
+  | None => None
+  end = Some (mkProbe [(-4, 0, 5 # 2); (-2, 0, 5 # 2); (0, 0, 5 # 2)]%Q (Some [(0, 0, 1); (0, 0, 1); (0, 0, 1)]%Q)
+                      (mkCS (0, 0, 5 # 2) (1, 0, 0) (0, 1, 0))%Q) /\
+  (* the gate of move_probe_over_flat_surface: refuses a probe 1 unit away from the GCS *)
+  match make_matrix_probe NumQ 3 2%Q 1 7%Q OriNone with
+  | Some p => match p_translate NumQ (1, 0, 0)%Q p with Some q => place_over_surface NumQ 0%Q (-(3 # 2))%Q q | None => None end
+  | None => None
+  end = None.
+Proof. vm_compute. repeat split; reflexivity. Qed.
